@@ -1101,6 +1101,25 @@ func gen(c *core.Ctx) error {
 		}
 	}
 
+	// the real key strings are pairwise distinct on comma-free triples (key_inj on the real code)
+	{
+		cf := []string{"", "t", "ta", "g", "ag", "{x}", "<h:1>", "<h:1?sock=a>", "tagA", "tagB", "<", ">}", "{", "<10.0.0.1:9618>"}
+		seenKey := map[string][3]string{}
+		for _, t := range cf {
+			for _, a := range cf {
+				for _, cm := range []string{"421", "9", "1", "<3>"} {
+					k := realKey(t, a, cm)
+					c.OracleCheck()
+					if prev, dup := seenKey[k]; dup && prev != [3]string{t, a, cm} {
+						c.OracleFail("key-collision", fmt.Sprintf("MapCommand files (%q,%q,%q) and (%q,%q,%q) under the same key %q", prev[0], prev[1], prev[2], t, a, cm, k),
+							map[string]string{"kind": "collision", "tag": t, "addr": a, "cmd": cm, "tag2": prev[0], "addr2": prev[1], "cmd2": prev[2]})
+					}
+					seenKey[k] = [3]string{t, a, cm}
+				}
+			}
+		}
+	}
+
 	hsOK := allHsEvents([]string{"ok"})
 	hsAll := allHsEvents([]string{"ok", "d1", "d2"})
 	second := append(append([]event{}, hsAll...), otherEvents()...)
@@ -1157,7 +1176,7 @@ func gen(c *core.Ctx) error {
 		}
 	}
 	// 3. sampled longer histories
-	n := 1000
+	n := 800
 	if !c.Quick() {
 		n = 12000
 	}
@@ -1187,6 +1206,24 @@ func gen(c *core.Ctx) error {
 
 func replay(raw json.RawMessage) error {
 	slog.SetDefault(slog.New(slog.NewTextHandler(io.Discard, &slog.HandlerOptions{Level: slog.LevelError + 10})))
+	var kc struct {
+		Kind, Tag, Addr, Cmd, Tag2, Addr2, Cmd2 string
+	}
+	if json.Unmarshal(raw, &kc) == nil && kc.Kind == "collision" {
+		if realKey(kc.Tag, kc.Addr, kc.Cmd) == realKey(kc.Tag2, kc.Addr2, kc.Cmd2) {
+			return errors.New("key-collision: two distinct comma-free triples share a key string")
+		}
+		return nil
+	}
+	if json.Unmarshal(raw, &kc) == nil && kc.Kind == "key" {
+		sc := security.NewSessionCache()
+		sc.Store(security.NewSessionEntry("id1", kc.Addr, nil, nil, time.Time{}, 0, kc.Tag))
+		sc.MapCommand(kc.Tag, kc.Addr, kc.Cmd, "id1")
+		if e, ok := sc.LookupByCommand(kc.Tag, kc.Addr, kc.Cmd); !ok || e.ID() != "id1" {
+			return errors.New("mapped-command-not-found")
+		}
+		return nil
+	}
 	var h history
 	if err := json.Unmarshal(raw, &h); err != nil {
 		return err
